@@ -54,6 +54,7 @@ UMATS = {
     "VfM4": [{}],
     "VfM10": [{"density": 0.75}, {}],          # a name that has another key ('VfM1') as prefix
     "vfm3": [{"batch": "lower-case twin"}, {}],  # differs from 'VfM3' in capitalisation only: a different key
+    "Vf M'%_é": [{"batch": "it's 100% \"odd\""}, {}],   # quote, percent, underscore, blank, non-ASCII
 }
 PTYPES = {
     "adsorbate": ["verif_p1", "verif_p2", "verif_p3", "verif_px", "molar_mass", "alias"],
@@ -246,7 +247,8 @@ def _iso_spec(rng, cfg):
             units["loading_basis"], units["loading_unit"] = "fraction", None
     meta = {}
     pool = {"user": "alice", "t_act": 150.5, "flag": True, "verif_i1": "xyz", "verif_i2": 0.125, "verif_i3": False,
-            "comment": "second run", "machine": "M-3", "verif_one": 1.0, "verif_zero": 0.0}
+            "comment": "second run", "machine": "M-3", "verif_one": 1.0, "verif_zero": 0.0,
+            "id": "user-key-named-id", "iso_type": "calorimetry", "type": "user-type", "value": 2.5}   # keys named like table columns
     for k in rng.sample(sorted(pool), rng.randint(0, 4)):
         meta[k] = pool[k]
     if cfg["open_domain"] and rng.random() < 0.1:
@@ -327,6 +329,8 @@ def gen_op(rng, cfg, models, favourites):
     kinds = [k for k, w in cfg["weights"].items() if w > 0]
     o = rng.choices(kinds, [cfg["weights"][k] for k in kinds])[0]
     op = {"op": o, "db": db, "session": session}
+    if rng.random() < 0.2:
+        op["path_object"] = True
     if o == "adsorbate_to_db":
         op["ads"] = _ads_spec(rng, open_values=cfg["open_domain"] and rng.random() < 0.2)
         op["overwrite"] = rng.random() < 0.3
